@@ -19,5 +19,5 @@ A_ErrorNeverDropped == (Done /\ g.r.st.fail = "" /\ WellFormed(g.r.st)) => Error
 A_NoDirtyAtAppend == (Done /\ g.r.st.fail = "") => ~AnyDirty(g.r.st)
 \* C06 / C07 at design level: the bodies compute the declarative mapping under every fault plan
 A_Values == (Done /\ WithValues /\ Outcome(g.r) = "ok") =>
-               \A v \in ValsN(prog, RootSrc, 1) : \A f \in {{}, {"a"}} : ValueOK(prog, v, f, Eval(prog, g.r.st.ms, g.r.st.ms[1].body, v, f, <<>>))
+               \A v \in ValsN(prog, RootSrc, 1) : \A f \in {{}, {"a"}} : ValueOK(prog, v, f, Eval(prog, g.r.st.ms, g.r.st.ms[1].body, v, f, <<<<>>>>))
 =============================================================================
